@@ -270,10 +270,14 @@ def prove_watchdog(src_root, ex: Explorer):
                   _event_bus=Stub('bus', emit=Recorder('emit', fn=lambda it2, a, k: emitted.append(a[0].cls.name), is_async=True)),
                   _settings=Stub('settings', credentials=Stub('credentials', are_configured=Recorder('are_configured', ret=creds)),
                                  network=Stub('network', server=Stub('server', reconnect=Stub('reconnect', timeout=5)))))
-        ctxo = Stub('context', last_state=None)
+        # the state the previous run of the job saw: nothing yet, the same state (e.g. CLOSED again after a FAILED reconnect attempt:
+        # the job must try again, for ever) or another one
+        last = ['none', 'same', 'other'][ctx.choose(3, 'last-seen-state')]
+        last_state = {'none': None, 'same': sc.attrs['state'], 'other': enum(it, CONN, 'ConnectionState', 'CONNECTED' if st != 'CONNECTED' else 'CLOSED')}[last]
+        ctxo = Stub('context', last_state=last_state)
         run(it, it.getattr(net, '_server_connection_watchdog_job'), ctxo)
         should = st == 'CLOSED' and creds
-        tag = f'{st},credentials={creds},{"fails" if fails else "ok"}'
+        tag = f'{st},credentials={creds},{"fails" if fails else "ok"},last={last}'
         ctx.prove(f'C16.watchdog.job[{tag}]', len(connects) == (1 if should else 0) and emitted == (['ServerReconnectedEvent'] if should and not fails else []),
                   'the watchdog reconnects only from CLOSED and only with credentials; a successful reconnect is announced once')
     ex.run(job, 'watchdog-job')
